@@ -335,8 +335,7 @@ def run_shard(ctx: Ctx) -> None:
                 pkg_batch = []
     if pkg_batch:
         check_pkg(ctx, pkg_batch)
-    cat = list(enumerate(shapes.all_shapes(2 if ctx.quick else 3)))
-    chunks = [cat[i:i + 20] for i in range(0, len(cat), 20)]
+    chunks = shapes.chunked(2 if ctx.quick else 3, 20)
     for ci, chunk in enumerate(chunks):
         if ctx.mine(ci):
             check_shapes(ctx, chunk, ctx.shard * 1000 + ci)
